@@ -1375,6 +1375,15 @@ static void generate_hashmap_implementations(Environment *env, StringBuilder *sb
     sb_append(sb, "    if (!a || !b) return false;\n");
     sb_append(sb, "    return strcmp(a, b) == 0;\n");
     sb_append(sb, "}\n\n");
+    /* Strings handed out by get/keys/values are copies: the map frees its own strdup()s on put/remove/clear */
+    sb_append(sb, "static const char *nl_hashmap_copy_string(const char *s) {\n");
+    sb_append(sb, "    if (!s) return \"\";\n");
+    sb_append(sb, "    size_t n = strlen(s);\n");
+    sb_append(sb, "    char *r = gc_alloc_string(n);\n");
+    sb_append(sb, "    if (!r) return \"\";\n");
+    sb_append(sb, "    memcpy(r, s, n + 1);\n");
+    sb_append(sb, "    return r;\n");
+    sb_append(sb, "}\n\n");
 
     for (int i = 0; i < env->generic_instance_count && i < 1000; i++) {
         GenericInstantiation *inst = &env->generic_instances[i];
@@ -1536,8 +1545,8 @@ static void generate_hashmap_implementations(Environment *env, StringBuilder *sb
         sb_append(sb, "    if (!found || idx < 0) ");
         if (strcmp(val, "string") == 0) sb_append(sb, "return \"\";\n"); else sb_append(sb, "return 0;\n");
         sb_appendf(sb, "    %s_Entry *e = &hm->entries[idx];\n", struct_name);
-        sb_append(sb, "    return e->value ? e->value : ");
-        if (strcmp(val, "string") == 0) sb_append(sb, "\"\";\n"); else sb_append(sb, "0;\n");
+        if (strcmp(val, "string") == 0) sb_append(sb, "    return e->value ? nl_hashmap_copy_string(e->value) : \"\";\n");
+        else sb_append(sb, "    return e->value ? e->value : 0;\n");
         sb_append(sb, "}\n\n");
 
         sb_appendf(sb, "static void nl_hashmap_%s_remove(%s *hm, %s key) {\n", suffix, struct_name, key_param_type);
@@ -1591,7 +1600,8 @@ static void generate_hashmap_implementations(Environment *env, StringBuilder *sb
         sb_append(sb, "    for (int64_t i2 = 0; i2 < hm->capacity; i2++) {\n");
         sb_appendf(sb, "        %s_Entry *e = &hm->entries[i2];\n", struct_name);
         sb_append(sb, "        if (e->state != 1) continue;\n");
-        sb_appendf(sb, "        dyn_array_push_%s(out, e->key);\n", keys_push);
+        sb_appendf(sb, "        dyn_array_push_%s(out, %s);\n", keys_push,
+                   (strcmp(key, "string") == 0) ? "nl_hashmap_copy_string(e->key)" : "e->key");
         sb_append(sb, "    }\n");
         sb_append(sb, "    return out;\n");
         sb_append(sb, "}\n\n");
@@ -1602,7 +1612,8 @@ static void generate_hashmap_implementations(Environment *env, StringBuilder *sb
         sb_append(sb, "    for (int64_t i2 = 0; i2 < hm->capacity; i2++) {\n");
         sb_appendf(sb, "        %s_Entry *e = &hm->entries[i2];\n", struct_name);
         sb_append(sb, "        if (e->state != 1) continue;\n");
-        sb_appendf(sb, "        dyn_array_push_%s(out, e->value);\n", values_push);
+        sb_appendf(sb, "        dyn_array_push_%s(out, %s);\n", values_push,
+                   (strcmp(val, "string") == 0) ? "nl_hashmap_copy_string(e->value)" : "e->value");
         sb_append(sb, "    }\n");
         sb_append(sb, "    return out;\n");
         sb_append(sb, "}\n\n");
